@@ -8,7 +8,7 @@ Replay the harness corrupts the cell of a valid trace, proves in the build witho
        never accepted;  not violated => proof generated and accepted.  An honest proof is verified against every perturbed
        public input, exemption count, proof option and trace shape: must be rejected."""
 import json, os, time
-import vlib, starkgen, c01
+import vlib, starkgen, c01, vmodel
 from vlib import log
 
 PID = "C02"
@@ -100,12 +100,18 @@ def run(tier, seed):
             if p["verify"] == "ok":
                 v.violation("sound/accepted-perturbed/%s" % p["what"].split(" ")[0],
                             "a proof valid for one statement is ACCEPTED for a different one (%s) (%s)" % (p["what"], ctx), dict(sc, perturbation=p["what"]))
+    # acceptance implies the protocol's relations: Trace_Verifier.tla recomputes DEEP composition, every folding step and the
+    # remainder from the values real proofs open (honest provers and provers cheating with consistent commitments)
+    r2, stmts2 = c01.gen(6, 1)
+    vm = vmodel.run(tier, seed, stmts2, wd)
+    vmodel.judge(v, vm, None, PID)
     log("[replay] %d statements: %d corrupted cells (%d violating, %d free), %d foreign commitments, %d perturbed statements, %d skipped (low query security)" % (
         len(scs), n_cells, n_viol, n_free, n_lde, n_pert, skipped))
     rc = v.finish()
     vlib.write_evidence(PID, tier, seed, "model_checking", {
-        "states": r.distinct, "transitions": r.generated,
-        "traces_validated_against_impl": n_cells + n_pert,
+        "states": r.distinct + vm["states"], "transitions": r.generated + vm["transitions"],
+        "traces_validated_against_impl": n_cells + n_pert + len(vm["lines"]),
+        "verifier_model_proofs": len(vm["lines"]), "verifier_model_stages": vmodel._hist(vm["lines"]),
         "samples": [{"statement": stmts[0]["t"], "corruptions": stmts[0]["corruptions"][:4]}] if stmts else [],
         "evaluations": n_cells + n_pert, "distinct_nontrivial": n_cells,
         "rule": "per generated statement: corrupted cells at the positions named in Gen_Stark.tla (expected verdict by Stark!Violated, cross-checked "
